@@ -94,6 +94,14 @@ EntropyOK == (Rec.op = "entropy" /\ Has("vals")) =>
     \A j \in 1..Len(Rec.regions) :
         Rec.vals[j] = Entropy(S0, {Rec.regions[j][i] : i \in 1..Len(Rec.regions[j])})
 
+\* wide registers with a pure padding (group too large to enumerate): by the lemma MC_Pad!PadEntropy the entropy of
+\* (basis state on the first n - k qubits) x (block on the last k) in a region is the block's entropy in the part of
+\* the region inside the block
+WideEntropyOK == (Rec.op = "wideentropy" /\ Has("vals")) =>
+    LET S0 == TGrp(Rec.block)  off == Rec.n - Rec.k IN
+    \A j \in 1..Len(Rec.regions) :
+        Rec.vals[j] = Entropy(S0, {Rec.regions[j][i] - off : i \in {a \in 1..Len(Rec.regions[j]) : Rec.regions[j][a] > off}})
+
 \* ---- C05 / C02 / C03 / C14 on states: one public state-changing call per entry, applied to a
 \* fresh copy of pre (op "steps") or to the live object of the previous entry (op "walk")
 GateMap(name) == CASE name = "H" -> GateH [] name = "S" -> GateS [] name = "X" -> GateX [] name = "Y" -> GateY
